@@ -77,6 +77,50 @@ def sweep(kind, ids, jobs=8):
     return 0
 
 
+def cross(kind, ids, jobs=14):
+    """For each patch, run the quick check of every OTHER property whose evidence says it parses one of the
+    patched files; print every alarm (exit 1/2).  For 'seeded' each cross alarm must be judged (is that other
+    property really broken by the change?); for 'refactors' every alarm is a false alarm."""
+    import re
+    from concurrent.futures import ThreadPoolExecutor
+    parsed = {}
+    for p in glob.glob(os.path.join(VERIF, "evidence", "C*.json")):
+        ev = json.load(open(p))
+        parsed[ev["property_id"]] = set(ev["coverage"].get("modules_parsed", []))
+    jobs_l = []
+    for i in ids:
+        d = os.path.join(VERIF, kind, i)
+        mp = os.path.join(d, "meta.json")
+        pf = os.path.join(d, "patch.diff")
+        if not (os.path.isfile(mp) and os.path.isfile(pf)):
+            continue
+        own = json.load(open(mp))["property"]
+        files = {m[len("src/twisted/"):] for m in re.findall(r"^\+\+\+ b/(\S+)", open(pf).read(), re.M) if m.startswith("src/twisted/")}
+        for prop, mods in sorted(parsed.items()):
+            if prop != own and files & mods:
+                jobs_l.append((i, own, prop, pf))
+    def one(j):
+        i, own, prop, pf = j
+        rc, out = check_with_patch(pf, prop)
+        ls = [l.strip() for l in out.splitlines()]
+        pairs = [ls[k][5:] + " | " + ls[k + 1][10:] for k in range(len(ls) - 1) if ls[k].startswith("rule=") and ls[k + 1].startswith("construct=")]
+        errs = [l for l in ls if l.startswith("ANALYSIS-ERROR")]
+        return i, own, prop, rc, pairs, errs
+    n = a = 0
+    rec = {}
+    with ThreadPoolExecutor(jobs) as ex:
+        for i, own, prop, rc, pairs, errs in ex.map(one, jobs_l):
+            n += 1
+            if rc != 0:
+                a += 1
+                rec.setdefault(i, {})[prop] = {"exit": rc, "rules": pairs[:3], "errors": errs[:1]}
+                print(f"{i} (breaks {own}) -> {prop} exit {rc}: " + " ;; ".join(pairs[:2])[:300] + (" " + errs[0][:160] if errs else ""))
+    print(f"cross {kind}: {n} (patch, other check) pairs run, {a} alarms")
+    if "--record" in sys.argv:
+        json.dump(dict(sorted(rec.items())), open(os.path.join(VERIF, kind, "cross.json"), "w"), indent=1)
+    return 0
+
+
 def detect(ids, all_checks=False, record=False):
     rc, out = sh("git -C /repo status --porcelain --untracked-files=no")
     if out.strip():
@@ -254,7 +298,7 @@ if __name__ == "__main__":
         sel = [x for x in a[2:] if not x.startswith("-")]
         allids = sorted(os.path.basename(p) for p in glob.glob(os.path.join(VERIF, kind, "*")) if os.path.isdir(p))
         ids = [i for i in allids if not sel or any(i.startswith(x) for x in sel)]
-        sys.exit(sweep(kind, ids))
+        sys.exit(cross(kind, ids) if "--cross" in a else sweep(kind, ids))
     if a and a[0] == "refactors":
         sys.exit(refactors([x for x in a[1:] if x.startswith("C")], apply="--apply" in a))
     if a and a[0] == "import":
